@@ -63,9 +63,9 @@ func genProgram(r *rand.Rand, allowErrors bool) string {
 	sb.WriteString("access(all) fun main(): Int {\n  var t = 0\n")
 	n := 3 + r.Intn(8)
 	for i := 0; i < n; i++ {
-		k := []int{0, 1, 2, 3, 4, 5, 6, 9, 10, 11, 12}[r.Intn(11)]
+		k := []int{0, 1, 2, 3, 4, 5, 6, 9, 10, 11, 12, 13, 14, 15, 16, 17, 13, 14}[r.Intn(18)]
 		if allowErrors && r.Intn(16) == 0 {
-			k = 7 + r.Intn(2)
+			k = []int{7, 8, 18}[r.Intn(3)]
 		}
 		switch k {
 		case 0:
@@ -92,6 +92,21 @@ func genProgram(r *rand.Rand, allowErrors bool) string {
 			fmt.Fprintf(&sb, "  let ia%d = Sh.Item(); let ba%d = Sh.Box(); ba%d.list.append(&ia%d as auth(Sh.E1) &Sh.Item); let ar%d = ba%d.list.removeFirst(); ar%d.bump(); t = t + ar%d.n; bo_keys(ba%d)\n", i, i, i, i, i, i, i, i, i)
 		case 12:
 			fmt.Fprintf(&sb, "  let bn%d = Sh.Box(); let nr%d = &bn%d as &Sh.Box; t = t + nr%d.nested.keys.length; bn%d.nested.forEachKey(fun (k: Int): Bool { return true })\n", i, i, i, i, i)
+		case 13:
+			// branch-local resource bookkeeping (the checker's per-branch resource sets): both branches invalidate
+			fmt.Fprintf(&sb, "  let c%d <- Sh.mkR(%d); if t > %d { t = t + c%d.id; destroy c%d } else { destroy c%d }\n", i, i, i, i, i, i)
+		case 14:
+			// branches of mixed nesting depth, a second resource in one of them
+			fmt.Fprintf(&sb, "  let d%d <- Sh.mkR(%d); if t > 1 { if t > 2 { destroy d%d } else { if t > 3 { destroy d%d } else { t = t + d%d.id; destroy d%d } } } else { let e%d <- Sh.mkR(0); destroy e%d; destroy d%d }\n", i, i, i, i, i, i, i, i, i)
+		case 15:
+			fmt.Fprintf(&sb, "  var k%d = 0; while k%d < 3 { k%d = k%d + 1; if k%d == 1 { continue }; let w%d <- Sh.mkR(k%d); if k%d == 2 { destroy w%d; break } else { destroy w%d } }\n", i, i, i, i, i, i, i, i, i, i)
+		case 16:
+			fmt.Fprintf(&sb, "  let g%d <- Sh.mkR(%d); switch t { case 1: t = t + 1; destroy g%d\n case 2: destroy g%d\n default: t = t + g%d.id; destroy g%d }\n", i, i, i, i, i, i)
+		case 17:
+			fmt.Fprintf(&sb, "  var o%d: @Sh.R? <- Sh.mkR(%d); if let v%d <- o%d { t = t + v%d.id; destroy v%d } else { t = t + 1 }\n", i, i, i, i, i, i)
+		case 18:
+			// a resource lost on one branch only: a deterministic checker error
+			fmt.Fprintf(&sb, "  let l%d <- Sh.mkR(%d); if t > 0 { destroy l%d }\n", i, i, i)
 		case 7:
 			fmt.Fprintf(&sb, "  let bad%d: String = 1\n", i)
 		case 8:
